@@ -1,0 +1,57 @@
+//go:build verif
+// +build verif
+
+package keeper
+
+import (
+	"fmt"
+	"sync"
+)
+
+// Fault injection for the verification harness (build tag "verif" only).
+// A plan maps a named point to the hit number (1-based) at which it fails once.
+
+var verifFaults = struct {
+	mu   sync.Mutex
+	plan map[string]int
+	hits map[string]int
+}{plan: map[string]int{}, hits: map[string]int{}}
+
+// VerifSetFault makes the nth next hit of point fail; nth <= 0 clears it.
+// Hit counters are reset.
+func VerifSetFault(point string, nth int) {
+	verifFaults.mu.Lock()
+	defer verifFaults.mu.Unlock()
+	verifFaults.hits = map[string]int{}
+	if nth <= 0 {
+		delete(verifFaults.plan, point)
+		return
+	}
+	verifFaults.plan[point] = nth
+}
+
+// VerifClearFaults removes every planned fault and resets the counters.
+func VerifClearFaults() {
+	verifFaults.mu.Lock()
+	defer verifFaults.mu.Unlock()
+	verifFaults.plan = map[string]int{}
+	verifFaults.hits = map[string]int{}
+}
+
+// VerifHits returns how often point was reached since the last reset.
+func VerifHits(point string) int {
+	verifFaults.mu.Lock()
+	defer verifFaults.mu.Unlock()
+	return verifFaults.hits[point]
+}
+
+func verifFault(point string) error {
+	verifFaults.mu.Lock()
+	defer verifFaults.mu.Unlock()
+	verifFaults.hits[point]++
+	if n, ok := verifFaults.plan[point]; ok && verifFaults.hits[point] == n {
+		delete(verifFaults.plan, point)
+		return fmt.Errorf("verif: injected fault at %s (hit %d)", point, n)
+	}
+	return nil
+}
